@@ -4,7 +4,7 @@ import json
 from vlib.core import Violation, Out, HarnessError
 from vlib.runner import EnumStage
 from vlib import mw, spec, refs
-from vlib.device import SIGNER
+from vlib.device import SIGNER, UIHB
 
 ID = "C04"
 LEVEL = "fault_enumeration"
@@ -26,7 +26,11 @@ NOMINAL = dict(mw.nominal_requests())
 NOMINAL_V1 = mw.nominal_requests_v1()
 REQS = {("v5", k): v for k, v in NOMINAL.items() if k != "version"}
 REQS.update({("v1", k): v for k, v in NOMINAL_V1.items() if k != "version"})
+# the same uiHeartbeat request met by a device that is ALREADY in UI-heartbeat mode (left there
+# by an earlier attempt): the code takes another path through the command
+REQS[("v5", "uiHb@ui")] = REQS[("v5", "uiHb")]
 NAMES = sorted(REQS)
+PLAIN_NAMES = [k for k in NAMES if "@" not in k[1]]      # for users that model follow-ups
 
 DER = refs.der_sig(b"\x11" * 32, b"\x22" * 32)
 
@@ -66,6 +70,8 @@ def fresh(key):
     w.adv_plan = {"final": "total"}
     w.sig_der = DER
     p = mw.stack(w, v1=(key[0] == "v1"))
+    if key[1].endswith("@ui"):
+        w.mode = UIHB
     return w, p
 
 
